@@ -190,6 +190,16 @@ def pytorch_stft_frame_computer(
     pad_right = max(0, total_len - sig_len)
     # a filter without any DFT bin (very short frames) contributes zero to every frame
     zero = sig.new_zeros(num_frames)
+    while pad_left > sig.size(0) or pad_right > sig.size(0):
+        # a pad longer than the signal: reflect repeatedly, like numpy.pad(mode="symmetric")
+        cur_len = sig.size(0)
+        ext_left, ext_right = min(pad_left, cur_len), min(pad_right, cur_len)
+        sig = torch.cat(
+            [sig[:ext_left].flip(0), sig, sig[cur_len - ext_right :].flip(0)]
+        )
+        pad_left -= ext_left
+        pad_right -= ext_right
+    sig_len = sig.size(0)
     if pad_left or pad_right:
         # symmetric padding
         sig = torch.cat(
